@@ -5,7 +5,7 @@ from symx.bind import bind_names, unbind
 from . import jsonval as J
 
 LEVEL = 'model_checking'
-BUDGET_S = {'quick': 120, 'thorough': 1200}
+BUDGET_S = {'quick': 170, 'thorough': 1200}
 BOUNDS = {
     'quick': 'single values depth <= 2 width <= 2; pairs depth <= 1 width <= 2; triples of leaves and width-1 containers; '
              'leaves None / bool / unbounded int / integer-valued float |i| <= 2**53 / specials -0.0 0.5 inf 1e300 2.0**63 / '
